@@ -488,8 +488,11 @@ impl<K: BaseKey> DynOwner for Owner<K> {
         let info = self.signer_info(i);
         let model = self.model.clone().unwrap();
         let sel_bytes = match op {
-            Op::SetPublicKey(PkSel::Signer) => Some(info.pk.clone()),
-            Op::SetPublicKey(PkSel::Slot(s)) => Some(self.keys[self.slot(*s)].0.ref_pk()),
+            Op::SetPublicKey(PkSel::Signer) => Some((info.pk_kind, info.pk.clone())),
+            Op::SetPublicKey(PkSel::Slot(s)) => {
+                let spec = self.keys[self.slot(*s)].0;
+                Some((spec.backend.pk_kind(), spec.ref_pk()))
+            }
             _ => None,
         };
         let pred = model.predict(op, &info, sel_bytes);
@@ -553,7 +556,7 @@ impl<K: BaseKey> DynOwner for Owner<K> {
                             format!("{opn} returned {} but {f} changed: before {} after {}", kind.name(), hex(&before.encoded), hex(&after.encoded))));
                     }
                 }
-                if pred.judged && same_scheme {
+                if pred.judged && !pred.judged_ok_only && same_scheme {
                     if pred.causes.is_empty() {
                         match kind {
                             ErrKind::ExceedsMaxSize => {
